@@ -248,3 +248,8 @@ def sized_snoc(a, x):
 @lemma((("a", "vl"), ("x", "val")), induct="a")
 def vlen_snoc(a, x):
     return vlen(snoc(a, x)) == vlen(a) + 1
+
+
+@lemma((("a", "vl"), ("x", "val")), induct="a")
+def snoc_is_app(a, x):
+    return snoc(a, x) == app(a, cons(x, nil()))
